@@ -27,6 +27,7 @@ import (
 const (
 	VerifLoopPendBlock = "pendBlock"
 	VerifLoopBlockReq  = "blockReq"
+	VerifLoopDenied    = "deniedPeer" // manageDeniedPeer: the 2s ticker that collects module replies
 )
 
 var (
@@ -36,12 +37,22 @@ var (
 )
 
 type verifTickKey struct {
-	l    *ltBroadcast
+	l    interface{} // *ltBroadcast or *validator owning the loop
 	name string
 }
 
+func verifCtxOf(l interface{}) context.Context {
+	switch x := l.(type) {
+	case *ltBroadcast:
+		return x.Ctx
+	case *validator:
+		return x.Ctx
+	}
+	return context.Background()
+}
+
 // verifLoopTicker is called by the loops right after creating their ticker.
-func verifLoopTicker(l *ltBroadcast, name string, t *time.Ticker) {
+func verifLoopTicker(l interface{}, name string, t *time.Ticker) {
 	if atomic.LoadInt32(&verifManualTicks) == 0 {
 		return
 	}
@@ -54,11 +65,11 @@ func verifLoopTicker(l *ltBroadcast, name string, t *time.Ticker) {
 
 // verifLoopDone is called by the loops at the end of an iteration: with a manual ticker
 // the loop reports the end of the iteration and waits until the harness has seen it.
-func verifLoopDone(l *ltBroadcast, name string) {
+func verifLoopDone(l interface{}, name string) {
 	if v, ok := verifDoneChans.Load(verifTickKey{l, name}); ok {
 		select {
 		case v.(chan struct{}) <- struct{}{}:
-		case <-l.Ctx.Done():
+		case <-verifCtxOf(l).Done():
 		}
 	}
 }
@@ -153,6 +164,9 @@ func (h *VerifHandle) BuildLtBlock(b *types.Block) *types.LightBlock { return h.
 func (h *VerifHandle) Tick(loop string, wait time.Duration) bool {
 	deadline := time.Now().Add(wait)
 	key := verifTickKey{h.p.ltB, loop}
+	if loop == VerifLoopDenied {
+		key = verifTickKey{h.p.val, loop}
+	}
 	for {
 		v, ok := verifTickChans.Load(key)
 		if ok {
@@ -184,6 +198,16 @@ func (h *VerifHandle) Release() {
 	verifTickChans.Delete(verifTickKey{h.p.ltB, VerifLoopBlockReq})
 	verifDoneChans.Delete(verifTickKey{h.p.ltB, VerifLoopPendBlock})
 	verifDoneChans.Delete(verifTickKey{h.p.ltB, VerifLoopBlockReq})
+	verifTickChans.Delete(verifTickKey{h.p.val, VerifLoopDenied})
+	verifDoneChans.Delete(verifTickKey{h.p.val, VerifLoopDenied})
+}
+
+// Denied tells whether the validator currently rejects messages published by id.
+func (h *VerifHandle) Denied(id peer.ID) bool {
+	if h.p.val == nil {
+		return false
+	}
+	return h.p.val.isDeniedPeer(id)
 }
 
 // Pending lists the hex block hashes of the pending light blocks.
